@@ -20,6 +20,8 @@ pub fn hm_remove_name(h: &mut HeaderMap, k: HeaderName)
 }
 pub uninterp spec fn as_key_view<K>(k: K) -> Seq<u8>;
 #[verifier::external_body] pub broadcast proof fn axiom_as_key_is_key(n: HeaderName) ensures #[trigger] as_key_view(n) == key_view(n) { }
+pub uninterp spec fn duration_secs(d: Duration) -> nat;
+pub assume_specification [Duration::from_secs] (s: u64) -> (d: Duration) ensures duration_secs(d) == s;
 pub open spec fn connect_bytes() -> Seq<u8> { seq![67u8,79,78,78,69,67,84] }   // "CONNECT"
 #[verifier::external_body] pub fn vp_is_connect(m: &Method) -> (r: bool) ensures r == (method_bytes(m) == connect_bytes()) { *m == Method::CONNECT }
 pub uninterp spec fn default_user_agent() -> Seq<char>;
@@ -397,4 +399,40 @@ let mut prepped =
                     && hv_bytes(&field_vals(&p.sp_headers(), ae_name())[0]) == str_bytes("gzip, deflate"@))
                 && (!self.sp_settings().allow_compression ==> field_vals(&p.sp_headers(), ae_name()) == field_vals(&self.sp_headers(), ae_name())),
 //@@ end
+}
+
+impl BaseSettings {
+//@@ fn src/request/settings.rs impl~Default~for~BaseSettings default rename=default_impl props=C16,C14
+//@@ rw R1
+SkipDebug(Vec::new())
+//@@ =>
+SkipDebug(Vec::<Certificate>::new())
+//@@ contract
+        ensures
+            !res.accept_invalid_certs && !res.accept_invalid_hostnames && res.root_certificates.0@.len() == 0, // id: tls_checks_are_on_by_default [C14,C16]
+            res.follow_redirects && res.max_redirections == 5 && res.max_headers == 100 && res.timeout is None && res.allow_compression && res.default_charset is None, // id: documented_defaults [C16]
+            hm_view(&res.headers).len() == 0,
+//@@ end
+}
+impl Session {
+//@@ fn src/request/session.rs impl~Session new props=C16,C14
+//@@ rw R1
+BaseSettings::default()
+//@@ =>
+BaseSettings::default_impl()
+//@@ contract
+        ensures !res@.accept_invalid_certs && !res@.accept_invalid_hostnames && res@.root_certificates.0@.len() == 0 && hm_view(&res@.headers).len() == 0, // id: new_session_has_default_settings [C16,C14]
+//@@ end
+}
+pub open spec fn text_plain_utf8() -> Seq<u8> { str_bytes("text/plain; charset=utf-8"@) }
+pub open spec fn octet_stream() -> Seq<u8> { str_bytes("application/octet-stream"@) }
+/// `HeaderValue::from_static(s)`
+#[verifier::external_body]
+pub fn vp_hv_from_static(s: &'static str) -> (r: HeaderValue) ensures hv_bytes(&r) == str_bytes(s@) { HeaderValue::from_static(s) }
+impl<B> RequestBuilder<B> {
+//@@ fn src/request/builder.rs impl<B>~RequestBuilder<B> body props=C16,C07
+//@@ contract
+        ensures res.sp_body() == body, res.sp_settings() == self.sp_settings(), res.sp_headers() == self.sp_headers(), res.sp_url() == self.sp_url(), res.sp_method() == self.sp_method(), // id: body_setter_changes_only_the_body [C16]
+//@@ end
+
 }
